@@ -1,8 +1,8 @@
 (** C08 — symbol entropy coding is lossless and self-delimiting.
     This file only restates theorems proved in Proofs/ and prints their assumptions. *)
 From Coq Require Import FMapPositive.
-From Draco Require Import Base.Codec Model.Varint Model.RansSymbol Model.RansFloat Model.SymbolCoding Model.RansBound
-  Proofs.RansSymbol_proofs Proofs.SymbolCoding_proofs Proofs.RansBound_proofs Proofs.RansBound_examples.
+From Draco Require Import Base.Codec Model.Varint Model.RansSymbol Model.RansFloat Model.SymbolCoding Model.RansBound Model.SymbolPolicy
+  Proofs.RansSymbol_proofs Proofs.SymbolCoding_proofs Proofs.RansBound_proofs Proofs.RansBound_examples Proofs.SymbolPolicy_proofs.
 Local Open Scope Z_scope.
 
 (** rANS state invariant and step inversion: one rans_write keeps the state in [L, 256 L) (L = 4 * 2^P) and the
@@ -119,6 +119,38 @@ Theorem C08_dec_symbols_length : forall ver n nc pre bs syms r, (1 <= nc)%nat ->
   dec_symbols ver n nc pre bs = Ok (syms, r) -> length syms = n.
 Proof. exact dec_symbols_length. Qed.
 Print Assumptions C08_dec_symbols_length.
+
+(** THE PROPERTY with the raw bit length as policy.  The unique-symbols bit length EncodeRawSymbols derives from the
+    symbol count and the compression level is stored in the stream and read back by the decoder, so it is an input
+    [bl] of the model encoder (Model/SymbolPolicy.v) exactly like the scheme [method]: for EVERY bit length for
+    which the encoder succeeds (admissible = 1..18 and Create accepts the histogram at that precision, cf.
+    C08_create_succeeds_for_callers_partial) the block decodes to the array and stops exactly behind it.  The current
+    code's level -> bit-length function is the instance [default_raw_bit_length] (C08_enc_symbols_default_policy);
+    retuning it changes no theorem. *)
+Theorem C08_raw_with_roundtrips : forall bl syms bs rest pre, syms <> [] -> (forall s, In s syms -> 0 <= s < 2 ^ 31) ->
+  enc_raw_with bl syms = Some bs -> zlen bs < 2 ^ 31 ->
+  dec_raw 514 (length syms) pre (bs ++ rest) = Ok (syms, rest).
+Proof. exact raw_with_roundtrips. Qed.
+Print Assumptions C08_raw_with_roundtrips.
+Theorem C08_symbols_with_roundtrips : forall method bl nc syms bs rest,
+  enc_symbols_with method bl nc syms = Some bs -> zlen bs < 2 ^ 31 ->
+  dec_symbols 514 (length syms) (Z.to_nat (if nc <=? 0 then 1 else nc)) [] (bs ++ rest) = Ok (syms, rest).
+Proof. exact symbols_with_roundtrips. Qed.
+Print Assumptions C08_symbols_with_roundtrips.
+Theorem C08_enc_symbols_with_fail_or_exact : forall method bl nc n, 1 <= nc ->
+  roundtrips (enc_symbols_with method bl nc) (dec_symbols_opt n (Z.to_nat nc))
+             (fun syms => length syms = n /\ forall bs, enc_symbols_with method bl nc syms = Some bs -> zlen bs < 2 ^ 31).
+Proof.
+  intros method bl nc n Hnc syms bs rest (Hn & Hlen) He. unfold dec_symbols_opt. subst n.
+  pose proof (symbols_with_roundtrips method bl nc syms bs rest He (Hlen bs He)) as H.
+  destruct (nc <=? 0) eqn:E; [lia|]. rewrite H. reflexivity.
+Qed.
+Print Assumptions C08_enc_symbols_with_fail_or_exact.
+Theorem C08_enc_symbols_default_policy : forall method lvl nc syms,
+  enc_symbols method lvl nc syms =
+  enc_symbols_with method (default_raw_bit_length (Z.of_nat (PositiveMap.cardinal (count_syms syms (PositiveMap.empty Z)))) lvl) nc syms.
+Proof. exact enc_symbols_default. Qed.
+Print Assumptions C08_enc_symbols_default_policy.
 
 (** WRITE-AREA SUFFICIENCY (StartEncoding reserves, rans_write / write_end / EndEncoding write unchecked).
     The classical rANS length bound, multiplicative form, for every valid table and every sequence of used symbols:
@@ -239,7 +271,8 @@ Proof. exact example_write_area. Qed.
     12 bits precision: Create gives symbol 0 the probability 3996/4096 and the others 1/4096; the cross entropy
     under that table is 4762.x bits, the encoder writes 585 + 3 bytes and EndEncoding touches 590 bytes of the
     area.  With E = 4763 (the cross entropy, what the library computes) 1203 bytes are reserved and
-    [ebits_check] (the model's decision procedure for [ebits_ok]) accepts E.
+    [ebits_check] (the model's numerical test of [ebits_ok], fixed-point logarithms; used by the driver, not proved
+    sound) accepts E.
     The Shannon entropy of the data itself, 99900*log2(100000/99900) + 100*log2(100000) = 1805.2 bits, is below
     2300 (the first conjunct is the 100th root of 100000^100000 <= 2^2300 * 99900^99900); an area sized from any
     E <= 2300 holds at most 587 bytes: three bytes (at E = 1806: 126 bytes) less than what is written, and
